@@ -481,3 +481,89 @@ def expand_stream(ip, v, depth=0):
         else:
             raise AnalysisIncomplete('adaptor %s is not modelled for range streams' % name)
     return item, guards, sources
+
+
+def private_helpers_of(F, root, skip=('convex_cell_alternative', '::tests::')):
+    """Crate-local, non-exported functions that are called (transitively) from `root` and from nowhere else: extracted pieces of
+    `root` (a macro turned into a function, a loop body turned into a helper).  -> {path: number of call sites from root's cone}"""
+    from ..facts import calls, callee_name
+    callers = {}
+    for b in F.bodies:
+        if any(x in b['path'] for x in skip):
+            continue
+        owner = b['path'].split('::{closure')[0]
+        for bl, t in calls(b):
+            c = callee_name(t)
+            if c in F.by_path:
+                callers.setdefault(c, []).append(owner)
+    cone = {root['path']: 1}
+    changed = True
+    while changed:
+        changed = False
+        for c, who in callers.items():
+            if c in cone or any(x in c for x in skip):
+                continue
+            b = F.by_path[c][0]
+            if b.get('exported') or b.get('kind') == 'Closure':
+                continue
+            if who and all(w in cone for w in who):
+                cone[c] = len(who)
+                changed = True
+    del cone[root['path']]
+    return cone
+
+
+# --- accumulator structs by leaf name (layout independent: a struct may embed another accumulator) -------------------------
+LEAF_SYMS = {'area': 'S', 'centroid': 'C', 'normal': 'N', 'volume': 'W'}
+
+
+def deep_fields(F, st, depth=0):
+    """Leaf field names of an accumulator struct, looking through fields that are themselves crate-local structs."""
+    a = F.adt(st, required=False)
+    if not a or depth > 3:
+        return []
+    out = []
+    for f in a['variants'][0]['fields']:
+        inner = F.adt(strip_generics(f['ty']), required=False)
+        if inner is not None and inner.get('kind') == 'Struct' and not f['ty'].startswith('glam::'):
+            out.extend(deep_fields(F, strip_generics(f['ty']), depth + 1))
+        else:
+            out.append(f['name'])
+    return out
+
+
+def deep_sym(F, st, depth=0):
+    """Symbolic instance of an accumulator struct: leaves named area/centroid/normal/volume become the symbols S/C/N/W."""
+    a = F.adt(st, required=False)
+    if not a:
+        raise AnalysisIncomplete('accumulator type %s not found' % st)
+    fs = {}
+    for f in a['variants'][0]['fields']:
+        inner = F.adt(strip_generics(f['ty']), required=False)
+        if inner is not None and inner.get('kind') == 'Struct' and not f['ty'].startswith('glam::') and depth < 3:
+            fs[f['name']] = deep_sym(F, strip_generics(f['ty']), depth + 1)
+        elif f['name'] in LEAF_SYMS:
+            sym = LEAF_SYMS[f['name']]
+            fs[f['name']] = I.sym_vec3(sym) if 'DVec3' in f['ty'] else RF.sym(sym)
+        else:
+            fs[f['name']] = I.mk_sym(nf.sym_atom('acc.' + f['name']), f['ty'])
+    return I.St(st, st.split('::')[-1], fs)
+
+
+def dget(v, name):
+    """Field `name` of v, or of the unique embedded struct that has it."""
+    if isinstance(v, I.Ref):
+        v = I.read_lv(v.lv)
+    if isinstance(v, I.St):
+        if name in v.fields:
+            return v.fields[name]
+        hits = []
+        for x in v.fields.values():
+            if isinstance(x, (I.St, I.Ref)):
+                try:
+                    hits.append(dget(x, name))
+                except (KeyError, AnalysisIncomplete):
+                    pass
+        if len(hits) == 1:
+            return hits[0]
+    return I.get_field(v, name)
